@@ -1,0 +1,42 @@
+//go:build verif
+
+package db
+
+import (
+	"fmt"
+	"os"
+	"strconv"
+	"sync"
+)
+
+// Verification hook (build tag verif): counts durable writes issued through the goleveldb backend and
+// terminates the process immediately before the N-th one, so that a crash between any two durable
+// writes can be reproduced. VERIF_CRASH_AT=N selects the ordinal (1-based; unset or 0 = never),
+// VERIF_CRASH_LOG=<file> appends one line per write (ordinal, kind, number of keys).
+var (
+	verifCrashMu  sync.Mutex
+	verifCrashN   int64
+	verifCrashAt  int64 = -1
+	verifCrashLog *os.File
+)
+
+func verifCrashPoint(kind string, keys int) {
+	verifCrashMu.Lock()
+	defer verifCrashMu.Unlock()
+	if verifCrashAt == -1 {
+		verifCrashAt, _ = strconv.ParseInt(os.Getenv("VERIF_CRASH_AT"), 10, 64)
+		if p := os.Getenv("VERIF_CRASH_LOG"); p != "" {
+			verifCrashLog, _ = os.OpenFile(p, os.O_CREATE|os.O_WRONLY|os.O_APPEND, 0o644)
+		}
+	}
+	verifCrashN++
+	if verifCrashLog != nil {
+		fmt.Fprintf(verifCrashLog, "%d %s %d\n", verifCrashN, kind, keys)
+	}
+	if verifCrashAt > 0 && verifCrashN == verifCrashAt {
+		if verifCrashLog != nil {
+			verifCrashLog.Sync()
+		}
+		os.Exit(77)
+	}
+}
